@@ -64,3 +64,22 @@ add('M02c', [(f, 'sp_%strsv("U", "T", "N", L, U, &Bmat[(size_t)k * (size_t)ldb],
              for (f, p) in (('SRC/dgstrs.c', 'd'), ('SRC/sgstrs.c', 's'))]
             + [(f, 'sp_%strsv("L", "T", "U", L, U, &Bmat[(size_t)k * (size_t)ldb], stat, info);\n' % p, 'sp_%strsv("U", "T", "N", L, U, &Bmat[(size_t)k * (size_t)ldb], stat, info);\n' % p)
                for (f, p) in (('SRC/dgstrs.c', 'd'), ('SRC/sgstrs.c', 's'))], ['C01'], note='transposed solve applies L^T before U^T (real variants)')
+
+# ---------------------------------------------------------------- C05 / C04 / C12 / C13 (expert driver; all four variants unless noted)
+add('M09', x4('SRC/?gssvx.c', "	    if ( colequ ) {\n	        for (j = 0; j < nrhs; ++j)\n		    for (i = 0; i < A->nrow; ++i)\n", "	    if ( rowequ ) {\n	        for (j = 0; j < nrhs; ++j)\n		    for (i = 0; i < A->nrow; ++i)\n"),
+    ['C05'], note='X unscaled under the wrong flag in the no-transpose arm')
+add('M09b', x4('SRC/?gssvx.c', "	    trant = TRANS;\n	    notran = 0;", "	    trant = TRANS;"), ['C05'], note='row storage: notran not reversed (scales with the wrong factor)')
+add('M09c', x4('SRC/?gssvx.c', "    if ( nofact && equil ) {", "    if ( equil ) {"), ['C05'], note='equilibrates again although factors are supplied')
+add('M08', x4('SRC/?gssvx.c', "	if ( info1 == 0 ) {\n	    /* Equilibrate matrix A. */", "	if ( info1 >= 0 ) {\n	    /* Equilibrate matrix A. */"), ['C05'],
+    note='laqgs applied although gsequ reported a zero row/column')
+add('M09d', [('SRC/dgssvx.c', "	            Xmat[i + j*ldx] *= R[i];", "	            Xmat[i + j*ldb] *= R[i];"), ('SRC/sgssvx.c', "	            Xmat[i + j*ldx] *= R[i];", "	            Xmat[i + j*ldb] *= R[i];")],
+    ['C05'], note='X unscaled with the leading dimension of B (d and s, so that the sibling rule is blind)')
+
+# ---------------------------------------------------------------- C11
+add('M11', x4('SRC/?laqgs.c', "	*(unsigned char *)equed = 'R';", "	*(unsigned char *)equed = 'C';"), ['C11'], note='row-scaling branch stores the letter C')
+add('M11b', x4('SRC/?laqgs.c', "    } else if (colcnd >= THRESH) {", "    } else if (colcnd > THRESH) {"), ['C11'], note='strict comparison against THRESH')
+add('M11c', x4('SRC/?laqgs.c', "#define THRESH    (0.1)", "#define THRESH    (0.01)"), ['C11'], note='threshold value changed')
+add('M22', x4('SRC/?gsequ.c', "	    r[i] = 1. / SUPERLU_MIN( SUPERLU_MAX( r[i], smlnum ), bignum );", "	    r[i] = 1. / r[i];"), ['C11'], note='clamp dropped from the row factors')
+add('M22b', x4('SRC/?gsequ.c', "		*info = A->nrow + j + 1;", "		*info = A->ncol + j + 1;"), ['C11'], note='empty column reported relative to ncol')
+add('M22c', [('SRC/dmach.c', "	rmach = DBL_EPSILON * 0.5 * FLT_RADIX;", "	rmach = DBL_EPSILON * 0.5;"), ('SRC/smach.c', "	rmach = FLT_EPSILON * 0.5 * FLT_RADIX;", "	rmach = FLT_EPSILON * 0.5;")],
+    ['C11'], note='Precision returns eps instead of eps*base')
